@@ -21,7 +21,7 @@ func init() {
 	register(func() {
 		engine.Register(&engine.Check{
 			ID: "C12", Level: "exploration", Risky: true,
-			Rule: "Go types x values: every one-field struct over 37 field types x 8 tag options, every two-field struct over 20 field types x 8 tag options per field (built at run time with reflect.StructOf), every field type plain and wrapped in slice / map / pointer / interface, pointer depth 0-3, and ~30 compiled seed types (named types, value- and pointer-receiver Folder and IsZeroer, inline folders/interfaces/pointers, registered custom folders, recursive types, unsupported kinds) x a value alphabet per field (zero, empty non-nil, non-empty, boundary numbers), folded by value and by pointer with the real Fold; oracle: the value of the emitted events == the executable model of the documented tag rules (model.RefFold), or an error where the model refuses the type; a case = (type descriptor, value, by-value/by-pointer); non-trivial = struct with at least one tagged or composite field",
+			Rule:        "Go types x values: every one-field struct over 37 field types x 8 tag options, every two-field struct over 20 field types x 8 tag options per field (built at run time with reflect.StructOf), every field type plain and wrapped in slice / map / pointer / interface, pointer depth 0-3, and ~30 compiled seed types (named types, value- and pointer-receiver Folder and IsZeroer, inline folders/interfaces/pointers, registered custom folders, recursive types, unsupported kinds) x a value alphabet per field (zero, empty non-nil, non-empty, boundary numbers), folded by value and by pointer with the real Fold; oracle: the value of the emitted events == the executable model of the documented tag rules (model.RefFold), or an error where the model refuses the type; a case = (type descriptor, value, by-value/by-pointer); non-trivial = struct with at least one tagged or composite field",
 			Assumptions: []string{"struct types are limited to what reflect.StructOf can build plus the compiled seeds (method-bearing and named types only as seeds)", "where the statement is silent (non-nil pointer/interface whose target is empty by size under omitempty) both outcomes are accepted and counted as ambiguous_accepted", "map-derived members compared unordered"},
 			Families:    func(tier string) []engine.Family { return goFamilies(tier, c12Body) },
 			Require:     []string{"folds_compared", "refusals_checked"},
